@@ -31,6 +31,8 @@ REPO = os.environ.get("REGRESS_REPO", "/repo")
 ALLOWED_AXIOMS = {"propext", "Classical.choice", "Quot.sound"}
 FORBIDDEN = re.compile(r"\b(sorry|admit|native_decide|bv_decide|implemented_by|unsafe)\b|^\s*axiom\s|maxHeartbeats\s+0\b|\bpartial\s+def\b", re.M)
 
+SPEC_OPS = {"esfind", "esiter"}
+
 TRUSTED_BASE = [
     "Lean 4.33.0 kernel (axioms allowed: propext, Classical.choice, Quot.sound; no native_decide, no sorry)",
     "tools/rs2lean.py (translator: tables, name maps, constants; checked against the engine by the `prop` tie)",
@@ -372,10 +374,12 @@ def check(pid, tier, seed):
 
     if okc:
         budget_mult = 10 if broken else 1   # a broken proof/tie: search harder for a concrete failing input
-        for cmd, sizes in plan["runs"]:
+        for run_entry in plan["runs"]:
+            cmd, sizes = run_entry[0], run_entry[1]
+            extra = list(run_entry[2]) if len(run_entry) > 2 else []
             outdir = os.path.join(BUILD, "runs", pid, cmd)
             n = sizes[tier] * budget_mult
-            args = ["--seed", str(seed), "--n", str(n), "--tier", "thorough" if (tier == "thorough" or broken) else "quick"]
+            args = ["--seed", str(seed), "--n", str(n), "--tier", "thorough" if (tier == "thorough" or broken) else "quick"] + extra
             oracle = None
             if cmd == "c11":
                 aux, oracle = c11_aux()
@@ -390,7 +394,13 @@ def check(pid, tier, seed):
             stats["samples"] += rep["samples"][:8]
             for k, v in rep["dist"].items():
                 stats["dist"][cmd + ":" + k] = v
-            hv = list(rep["violations"])
+            hv = []
+            for v in rep["violations"]:
+                tag = v["kind"].split(":")[1] if ":" in v["kind"] else pid
+                if tag == pid:
+                    hv.append(v)
+                else:
+                    stats["dist"]["other-property-violations:" + tag] = stats["dist"].get("other-property-violations:" + tag, 0) + 1
             if oracle is not None:
                 hv += c11_oracle_compare(outdir, oracle)
             for v in hv:
@@ -400,10 +410,22 @@ def check(pid, tier, seed):
                 if drc != 0:
                     broken.append({"tie": "Lean driver on " + cmd, "detail": derr[-2000:]})
                 else:
-                    nreq, diffs = diff_replies(outdir)
-                    stats["model_diffs"] = stats.get("model_diffs", 0) + len(diffs)
-                    if diffs:
-                        broken.append({"tie": "correspondence %s (model vs implementation)" % cmd, "detail": diffs[:5]})
+                    nreq, diffs = diff_replies(outdir, limit=200)
+                    tie_diffs = []
+                    for d in diffs:
+                        op = d["request"].split(" ")[0]
+                        if op in SPEC_OPS:
+                            # the Lean side is the *specification*: a difference is implementation vs spec
+                            if d["model"].startswith("unsupported") or d["model"] == "fuel" or d["impl"] == "fuel":
+                                stats["dist"]["spec-domain-skips"] = stats["dist"].get("spec-domain-skips", 0) + 1
+                                continue
+                            violations.append({"kind": "impl-vs-spec", "case": d["request"],
+                                               "what": "implementation [%s] differs from the ECMAScript specification model [%s]" % (d["impl"], d["model"])})
+                        else:
+                            tie_diffs.append(d)
+                    stats["model_diffs"] = stats.get("model_diffs", 0) + len(tie_diffs)
+                    if tie_diffs:
+                        broken.append({"tie": "correspondence %s (model vs implementation)" % cmd, "detail": tie_diffs[:5]})
 
     # classification
     rc = 0
